@@ -599,6 +599,26 @@ def gen_construct(rng, tier):
             cases.append(Case("construct:pyscalar", f"polynomial({x!r}, dtype={d})",
                               (lambda x=x, d=d: numpoly.polynomial(x, dtype=d)), exp, coq, [()],
                               (lambda Q, s=s, d=d: {"writes": [(s, d or s)]}), table=("construct-scalar", s, d or "-")))
+    # lists that mix a numpy scalar (or a polynomial) of a non-default dtype with plain Python numbers: numpy.array of the
+    # same list is the reference (a Python number in a list is a full int64 / float64 / complex128 there)
+    for sdt in ("int8", "uint8", "int16", "uint16", "float16", "float32", "complex64", "uint32", "uint64"):
+        for py in (7, -1, 0.5, 2 + 1j, 300):
+            one = numpy.dtype(sdt).type(1)
+            for form in ("scalar-first", "scalar-last", "poly"):
+                if form == "poly":
+                    data_np = [one, py]
+                    make = (lambda sdt=sdt, py=py: numpoly.polynomial([numpoly.polynomial(numpy.dtype(sdt).type(1)), py]))
+                else:
+                    data_np = [one, py] if form == "scalar-first" else [py, one]
+                    make = (lambda data_np=data_np: numpoly.polynomial(list(data_np)))
+
+                def exp(data_np=data_np):
+                    with warnings.catch_warnings():
+                        warnings.simplefilter("ignore")
+                        a = numpy.array(data_np)
+                    return ("ok", str(a.dtype), a.shape, {(): a})
+                cases.append(Case("construct:list", f"polynomial([{sdt}(1), {py!r}]) ({form})", make, expect_or_raise(lambda exp=exp: exp()[1:]),
+                                  None, [()], (lambda Q: {}), table=("construct-list-mixed", sdt, f"{type(py).__name__}:{form}")))
     # coefficient lists of mixed dtypes: the common dtype (numpy.result_type) of all coefficients
     for s1, s2 in itertools.product(["int64", "float64", "int8", "uint32", "bool", "complex128", "float32"], repeat=2):
         v1, v2 = cast_vals(rng, s1, None, 3), [v for v in cast_vals(rng, s2, s1, 3)]
